@@ -458,7 +458,9 @@ Inductive case :=
 | CaseEncCol (q : colq) (wire : json) (accepted : bool)    (* EncodeCursor, then UnmarshalCursor of the result *)
 | CaseEncOff (q : offq) (wire : json) (accepted : bool)
 | CaseDecCol (wire : json) (decoded : option colq)          (* UnmarshalCursor of a (possibly foreign) document *)
-| CasePageSize (dflt max : N) (p : psparam) (res : option N).
+| CasePageSize (dflt max : N) (p : psparam) (res : option N)
+| CaseWalkCol (rows : list Z) (n : nat) (o : order) (items : list Z)   (* what a client following next collected *)
+| CaseWalkOff (rows : list Z) (n : nat) (items : list Z).
 
 Definition check_case (c : case) : bool :=
   match c with
@@ -480,6 +482,12 @@ Definition check_case (c : case) : bool :=
       json_eqb (enc_offq q) wire && accepted && opt_eqb offq_eqb (dec_offq wire) (Some q)
   | CaseDecCol wire decoded => opt_eqb colq_eqb (dec_colq wire) decoded
   | CasePageSize dflt max p res => opt_eqb N.eqb (get_page_size dflt max p) res
+  | CaseWalkCol rows n o items =>
+      list_eqb Z.eqb (List.concat (map k_data (walk rows (S (List.length rows))
+                                                 (first_query n o "id" {| qo_qb := None; qo_psize := 0; qo_options := None |})))) items
+  | CaseWalkOff rows n items =>
+      list_eqb Z.eqb (List.concat (map ok_data (walk_off rows (S (List.length rows))
+                                                  (first_offq n Asc {| qo_qb := None; qo_psize := 0; qo_options := None |})))) items
   end.
 
 Fixpoint bad_cases {A} (chk : A -> bool) (n : nat) (l : list A) : list nat :=
